@@ -1348,6 +1348,38 @@ pub fn rebuild_sessions(sid: &str, input: &[u8], out: &mut dyn Write) -> usize {
         let ops = vec![Op::With { vc, tr: protocol, addr: addresses, bitor: 0 }, Op::Write(Payload::Tlvs(tb.clone(), 0)), Op::Build];
         n += run_ops_in(sid, &json!({"g": "rebuild", "mode": "addr", "of": sid}), &ops, out, false);
     }
+    // the header's OWN values handed to the builder: `address_bytes()` and `tlvs()` of the borrowed
+    // header, of its owned copy (after the source buffer is gone) and of a clone
+    for via in 0..3usize {
+        let built = guard(|| {
+            let mut src = input.to_vec();
+            let h = v2::Header::try_from(&src[..]).expect("accepted above");
+            let owned;
+            let cloned;
+            let hv: &v2::Header = match via {
+                0 => &h,
+                1 => { owned = h.to_owned(); &owned }
+                _ => { cloned = h.clone(); &cloned }
+            };
+            let r = Builder::new(vc, afp).write_payload(hv.address_bytes()).and_then(|b| b.write_payload(hv.tlvs())).and_then(|b| b.build());
+            let out = match r {
+                Ok(bytes) => json!({"k": "ok", "v": rl(&bytes)}),
+                Err(e) => json!({"k": "err", "ek": ek(&e)}),
+            };
+            if via == 0 { src.clear(); }
+            out
+        })
+        .unwrap_or_else(|p| panic_value(&p));
+        let via_name = ["borrowed", "owned", "clone"][via];
+        let tag = json!({"g": "rebuild", "mode": "value", "of": sid, "via": via_name});
+        writeln!(out, "{}", json!({"sid": sid, "op": "BReset", "tag": tag})).unwrap();
+        writeln!(out, "{}", json!({"sid": sid, "op": "BNew", "vc": vc, "afp": afp, "bitor": 0, "r": "ok", "built": {"k": "na"}})).unwrap();
+        writeln!(out, "{}", json!({"sid": sid, "op": "BWrite", "p": {"ty": "slice", "v": rl(&ab)}, "r": "ok", "built": {"k": "na"}})).unwrap();
+        writeln!(out, "{}", json!({"sid": sid, "op": "BWrite", "p": {"ty": "tlvs", "v": rl(&tb)}, "r": "ok", "built": {"k": "na"}})).unwrap();
+        let r = match built["k"].as_str() { Some("ok") => "ok", Some("panic") => "panic", _ => "err" };
+        writeln!(out, "{}", json!({"sid": sid, "op": "BBuild", "r": r, "built": built})).unwrap();
+        n += 5;
+    }
     n
 }
 
